@@ -128,3 +128,114 @@ func throwSatisfierCrossCheck(c *ProcCase, cm *Node) string {
 	}
 	return ""
 }
+
+// enumerateSatisfiers is the exhaustive sequential part of C14: every history of the given length over
+// nd definitions plus one non-matching event, for the catch satisfier (plain multiple and
+// parallel-multiple) and the throw satisfier, checked against the property's bounds after every prefix.
+func enumerateSatisfiers(tier string) *Outcome {
+	o := &Outcome{Probes: map[string]int{}}
+	var vl vlist
+	maxND := 3
+	if tier == "thorough" {
+		maxND = 4
+	}
+	length := 9
+	allDefs := []EventDef{{Kind: "signal", Ref: "s1"}, {Kind: "message", Ref: "m1"}, {Kind: "signal", Ref: "s2"}, {Kind: "message", Ref: "m2"}}
+	total := 0
+	for nd := 1; nd <= maxND; nd++ {
+		for _, parallel := range []bool{false, true} {
+			d := &Definitions{Signals: []string{"s1", "s2", "sX"}, Messages: []string{"m1", "m2"}}
+			g := &Graph{ID: "P1", Executable: true}
+			d.Procs = []*Graph{g}
+			g.addNode(&Node{ID: "Start", Kind: "start"})
+			cm := g.addNode(&Node{ID: "CM", Kind: "catch", Parallel: parallel, Events: allDefs[:nd]})
+			g.connect(d, "Start", "CM", nil, -1)
+			th := g.addNode(&Node{ID: "TH", Kind: "throw", Events: allDefs[:nd]})
+			g.connect(d, "CM", "TH", nil, -1)
+			g.addNode(&Node{ID: "End", Kind: "end"})
+			g.connect(d, "TH", "End", nil, -1)
+			_, _ = th, cm
+			defs, err := schema.Parse([]byte(d.XML()))
+			if err != nil {
+				vl.add("C14/harness", "%v", err)
+				continue
+			}
+			ce := &(*(*defs.Processes())[0].IntermediateCatchEvents())[0]
+			te := &(*(*defs.Processes())[0].IntermediateThrowEvents())[0]
+			alphabet := nd + 1 // index nd = non-matching
+			evs := make([]event.IEvent, alphabet)
+			for i := 0; i < nd; i++ {
+				evs[i] = mkEvent(allDefs[i].Kind, allDefs[i].Ref)
+			}
+			evs[nd] = mkEvent("signal", "sX")
+			seq := make([]int, length)
+			n := 1
+			for i := 0; i < length; i++ {
+				n *= alphabet
+			}
+			for code := 0; code < n; code++ {
+				x := code
+				for i := 0; i < length; i++ {
+					seq[i] = x % alphabet
+					x /= alphabet
+				}
+				total++
+				for which := 0; which < 2; which++ {
+					if which == 1 && parallel {
+						continue // the throw satisfier has no plain/parallel distinction: enumerate it once
+					}
+					var satisfy func(event.IEvent) bool
+					isParallel := parallel
+					if which == 0 {
+						sat := logic.NewCatchEventSatisfier(ce, event.WrappingDefinitionInstanceBuilder)
+						satisfy = func(e event.IEvent) bool { ok, _ := sat.Satisfy(e); return ok }
+					} else {
+						sat := logic.NewThrowEventSatisfier(te, event.WrappingDefinitionInstanceBuilder)
+						satisfy = func(e event.IEvent) bool { ok, _ := sat.Satisfy(e); return ok }
+						isParallel = true
+					}
+					counts := make([]int, nd)
+					fires := 0
+					for k, sym := range seq {
+						ok := satisfy(evs[sym])
+						if sym == nd {
+							if ok {
+								vl.add("C14/satisfier", "history %v (nd=%d, parallel=%v, %s): non-matching event #%d made it fire", seq, nd, parallel, []string{"catch", "throw"}[which], k)
+							}
+							continue
+						}
+						counts[sym]++
+						if ok {
+							fires++
+						}
+						if !isParallel || nd == 1 {
+							if !ok {
+								vl.add("C14/satisfier", "history %v (nd=%d, plain multiple catch): matching event #%d did not fire", seq, nd, k)
+							}
+							continue
+						}
+						min, max := counts[0], counts[0]
+						for _, c := range counts {
+							if c < min {
+								min = c
+							}
+							if c > max {
+								max = c
+							}
+						}
+						if fires > min {
+							vl.add("C14/satisfier", "history %v (nd=%d, %s): after event #%d fired %d times, least-matched definition matched %d times", seq, nd, []string{"catch", "throw"}[which], k, fires, min)
+						}
+						if min == max && fires != min {
+							vl.add("C14/satisfier", "history %v (nd=%d, %s): after event #%d every definition matched exactly %d times, fired %d times", seq, nd, []string{"catch", "throw"}[which], k, min, fires)
+						}
+					}
+				}
+			}
+		}
+	}
+	o.Viol = vl.v
+	o.Probes["satisfier-histories-enumerated"] = total
+	o.Sample = map[string]any{"exhaustive_sequential_part": fmt.Sprintf("all histories of length %d over 1..%d definitions plus a non-matching event, catch (plain and parallel-multiple) and throw satisfier: %d histories", length, maxND, total)}
+	return o
+}
